@@ -6,8 +6,56 @@ Parts of the check (see lean/LabreaModel/Hook.lean, lean/LabreaProps/C18.lean):
   2. synthetic subclass chains made with type() on the real ABCs vs the Lean model (`drv_hook`)
   3. pass-through recording handlers on a corpus of real expression graphs (implementation oracle)
   4. substitution handler for one dataset (implementation oracle)
+  5. USER-DEFINED node classes: a directed family of class shapes (`user_family`, the same in every run; the
+     seed only rotates the option dictionaries of the quick tier), one shape for every hook-bearing base
+     (Evaluatable, Validatable, Cacheable, Explainable, Effect = Validatable+Explainable) x operation x the way
+     the implementation reaches the class:
+        body                   defined in the class body
+        mixin_before           inherited from a plain (non-labrea) mixin listed BEFORE the labrea base
+        mixin_after            ... listed AFTER a labrea base: reachable only when the base that hooks the method
+                               comes later still (`class N(Explainable, Mix, Validatable)`); directly after the
+                               hooking base the base's abstract method shadows it and the class cannot be
+                               instantiated (observed, `mixin_after_shadowed`)
+        parent                 inherited from a user-defined labrea subclass
+        override               overridden again in a sub-subclass, not calling the parent
+        override_chain_slot    overridden, calling the parent's implementation as Base.__labrea_m__(self, options)
+        mixin_before_parent    a plain mixin listed before a user-defined labrea subclass that defines the method
+        mixed                  some operations from one or two mixins / a mixin's parent, the others from the body
+                               or a parent; body shadowing a mixin; parent built on a mixin; diamond
+        builtin_*              subclasses of Option, Switch, WithOptions, Cached, Logged, Value overriding one
+                               operation (body / mixin listed before / chaining to the built-in's slot)
+     Classes are created with type(name, bases, namespace) (= what a class statement does; a class decorator
+     that returns a rebuilt subclass is the same thing). Every function of a recipe logs that its code ran.
+     Each node is used alone, as a direct and indirect dependency of datasets, as a dataset effect (Effect
+     shapes) and inside every combinator of the corpus language (one graph holding all of them in the quick
+     tier; also one graph per combinator in the thorough tier), with
+       (a) the recording pass-through handlers of part 3 for all request types: results and the sequence of
+           user functions run are the same as without handlers, and for every hooked operation the number of
+           executions of the implementation the class designates (first definition along CPython's MRO,
+           computed from the recipe, not from what the hooks did) equals the number of requests of that type
+           seen for that object; nothing else of the recipe ran in its place; called directly, each operation
+           returns what that implementation returns;
+       (b) substituting handlers: for EvaluateRequest through the graph shapes of part 4 (`dep`), and for each
+           of the four request types called directly / as node(options) / through a dataset (`u_subst_ops`):
+           the caller gets the substituted result, the handler was consulted, the node's own code did not run.
+     Lean side: the hook theorems speak about single-inheritance chains of class bodies; a function found on a
+     plain mixin listed before the parent is, for the hooks (first own-dict entry along the MRO of the new
+     class), the same as that function bound in the body, and a mixin after a parent that defines the method is
+     invisible. Part 2 therefore creates real mixin classes for the chain tokens m<j>/n<j> and hands the model
+     the chain with p<j>/- in their place (`chain_to_model`): these chains are further instances of `hook_total`
+     (columns ok/intended of drv_hook) and are compared observation by observation; the def-only oracle of
+     part 2 covers them too. Shapes the model has no words for (a mixin between two hook roots, built-in
+     parents with constructors, slot chaining at call time) are judged by the oracle (a)/(b) alone.
+     KEPT OUT OF THE ORACLE (observed in every run, reported in the evidence under user_class_family.per_shape):
+       override_chain_super   `super().m(options)` in an override of a routed method: the parent's attribute is
+                              the wrapper, which issues a new request for the same object, whose default handler
+                              runs the override again -> unbounded recursion (RecursionError) on the unchanged
+                              package, with and without handlers;
+       setattr_after          `Cls.m = f` after class creation (a mutating class decorator): the hooks only run
+                              at class creation, the new function is called directly, no request is issued.
 
-The implementation always runs in a subprocess of PY with PYTHONPATH=REPO (worker mode of this file).
+The implementation always runs in a subprocess of PY with PYTHONPATH=REPO (worker mode of this file); the two
+family jobs of part 5 run in their own worker processes concurrently with parts 1-4.
 """
 import sys
 from pathlib import Path
@@ -35,14 +83,18 @@ SPEC = PropSpec(
         "CPython class creation as abstracted in LabreaModel/Hook.lean (own-dict lookup along the MRO, cooperative "
         "__init_subclass__ in reverse MRO order); tied to the real interpreter by synthetic type() chains",
         "the recording handlers and the monkeypatched slot/cache/logging counters of harness/props/C18.py",
+        "user-defined class family: CPython's MRO decides which recipe function a class designates; chain tokens "
+        "m<j>/n<j> (real mixin classes) are presented to the Hook model as p<j>/- (chain_to_model)",
     ],
     assumptions=[
         "Generic/Protocol/ABC __init_subclass__ call super() (checked: they are the only foreign ones in any MRO)",
         "bases outside the class table define none of the eight names (checked by reflection on every MRO)",
         "instance-level and metaclass-instance-level shadowing of the four method names is out of scope "
         "(a dataset class with a member called `evaluate`)",
-        "parts 3/4 are implementation-side oracles; the core evaluator model's request log is an extension point "
+        "parts 3/4/5 are implementation-side oracles; the core evaluator model's request log is an extension point "
         "(core_request_log)",
+        "user-defined classes: super().m(options) inside an override of a routed method (unbounded recursion on the "
+        "unchanged package) and assignment of a method after class creation (not routed) are observed, not judged",
     ],
 )
 
@@ -352,7 +404,7 @@ def w_chains(job):
             if obj is not None and getattr(obj, "__labrea_wrapper__", None) is not True:
                 tag = W.names.get(id(obj), "?")
                 setattr(K, name, tagged(tag, name=name))
-    ext_fns, fake_fns = {}, {}
+    ext_fns, fake_fns, mix_fns = {}, {}, {}
     results = []
     seen_reqs = []
 
@@ -407,12 +459,18 @@ def w_chains(job):
         for i, body in enumerate(parts[1:]):
             toks = body.split(",")
             ns, ntoks = {}, []
+            mix_before, mix_after = {}, {}
             for m, tok in zip(METHS, toks[:4]):
                 val = None
                 if tok == "-":
                     pass
                 elif tok == "d":
                     val = tagged(f"u{1000 + i}.{ML[m]}", name=m)
+                elif tok[0] in "mn":
+                    # inherited from a plain mixin class listed before (m) / after (n) the parent
+                    (mix_before if tok[0] == "m" else mix_after)[m] = mix_fns.setdefault((tok, m), tagged("x" + tok[1:], name=m))
+                    ntoks.append(tok)
+                    continue
                 elif tok[0] == "p":
                     val = ext_fns.setdefault(tok, tagged("x" + tok[1:]))
                 elif tok[0] == "f":
@@ -437,7 +495,12 @@ def w_chains(job):
                     ns[f"__labrea_{m}__"] = tagged(f"s{1000 + i}.{ML[m]}", name=f"__labrea_{m}__")
             norm.append(",".join(ntoks + [flags]))
             try:
-                cls = type(f"S{i}", parent, ns)
+                bases_i = parent
+                if mix_before:
+                    bases_i = (type(f"MixBefore{i}", (), dict(mix_before)),) + bases_i
+                if mix_after:
+                    bases_i = bases_i + (type(f"MixAfter{i}", (), dict(mix_after)),)
+                cls = type(f"S{i}", bases_i, ns)
                 cls.__abstractmethods__ = frozenset()
             except BaseException as e:     # noqa: BLE001
                 err = f"class creation failed at body {i}: {type(e).__name__}: {e}"
@@ -534,9 +597,11 @@ TYPES = {"int": int, "str": str, "list": list, "dict": dict}
 class GB:
     """Builds a fresh labrea graph from a JSON spec (public API only)."""
 
-    def __init__(self, shared_specs=()):
+    def __init__(self, shared_specs=(), urecipe=None):
         self.shared_specs = list(shared_specs)
         self.shared = {}
+        self.urecipe = urecipe      # class shape of the user-defined node `["unode"]` (one instance per graph)
+        self.unode = None
         self.effects_seen = []
         self.calls = []
 
@@ -576,6 +641,10 @@ class GB:
             return AllOptions
         if k == "ref":
             return self.ref(s[1])
+        if k == "unode":
+            if self.unode is None:
+                self.unode = u_node(self.urecipe)
+            return self.unode
         if k == "apply":
             return self.b(s[1]).apply(FUNCS[s[2]])
         if k == "bind":
@@ -714,7 +783,7 @@ class GB:
 
 SPEC_KINDS = {"val", "opt", "optd", "optt", "optdom", "allopts", "ref", "apply", "bind", "iter", "list", "tuple", "set",
               "dict", "coalesce", "switch", "case", "tmpl", "with", "cached", "logged", "fa", "pa", "map", "mapvals",
-              "step", "pipe", "overloaded", "ds"}
+              "step", "pipe", "overloaded", "ds", "unode"}
 
 
 def _unkey(k):
@@ -871,15 +940,250 @@ def g_special(name, gb):
     raise ValueError(name)
 
 
+# ---------------------------------------------------------------------------------- part 5: user-defined node classes
+class U:
+    """State of the user-defined class family in the worker."""
+    calls = []          # (op, id(self), tag): appended by every function written by a recipe when its code runs
+    built = {}          # recipe id -> list of classes
+
+
+def u_own(op, tag, o):
+    """What the function `tag` written for `op` returns by itself (JSON-like, deterministic)."""
+    has = hasattr(o, "get")
+    if op == "evaluate":
+        return ("u", tag, o.get("A") if has else None)
+    if op == "validate":
+        return None
+    if op == "keys":
+        return {"A"} if has and "A" in o else set()
+    return {"A", "U_" + tag.replace(".", "_").replace("@", "_")}
+
+
+def u_combine(op, own, pv):
+    if op == "evaluate":
+        return own + (pv,)
+    if op == "validate":
+        return None
+    return set(own) | set(pv)
+
+
+def u_base(ref):
+    import labrea
+    import labrea.cache
+    import labrea.computation
+    import labrea.logging
+    import labrea.option
+    T = W.T
+    return {"Evaluatable": T.Evaluatable, "Validatable": T.Validatable, "Cacheable": T.Cacheable,
+            "Explainable": T.Explainable, "Effect": labrea.computation.Effect, "Option": labrea.Option,
+            "Switch": labrea.Switch, "Value": labrea.Value, "WithOptions": labrea.option.WithOptions,
+            "Cached": labrea.cache.Cached, "Logged": labrea.logging.Logged}[ref]
+
+
+def u_fn(op, tag, chain, classes, own_index):
+    """A method body as a user would write it: logs that its code ran, optionally chains to the parent
+    (`["slot", base]`: Base.__labrea_op__(self, options); `["super"]`: super().op(options))."""
+    def f(self, options=None):
+        U.calls.append((op, id(self), tag))
+        o = options if options is not None else {}
+        own = u_own(op, tag, o)
+        if chain is None:
+            return own
+        if chain[0] == "slot":
+            base = classes[chain[1]] if isinstance(chain[1], int) else u_base(chain[1])
+            pv = getattr(base, f"__labrea_{op}__")(self, options)
+        else:
+            pv = getattr(super(classes[own_index], self), op)(options)
+        return u_combine(op, own, pv)
+    f.__name__ = op
+    f.__qualname__ = tag
+    f.__module__ = "c18_user"
+    return f
+
+
+def u_build(recipe):
+    """Create the classes of a recipe with type() (what a `class` statement does: the metaclass is called
+    with name, bases and namespace; __init_subclass__ of the bases runs inside type.__new__)."""
+    if recipe["id"] in U.built:
+        return U.built[recipe["id"]]
+    roots = tuple(W.ROOT.values())
+    classes = []
+    for i, c in enumerate(recipe["classes"]):
+        bases = tuple(classes[b] if isinstance(b, int) else u_base(b) for b in c["bases"])
+        ns = {"__module__": "c18_user", "__qualname__": c["name"]}
+        for op, ch in c["defs"].items():
+            ns[op] = u_fn(op, f"{c['name']}.{op}", ch, classes, i)
+        if any(issubclass(b, roots) for b in bases):
+            ns["__repr__"] = (lambda rid, nm: lambda self: f"<{nm} of {rid}>")(recipe["id"], c["name"])
+        if c.get("transform"):
+            ns["transform"] = lambda self, value, options=None: None
+        classes.append(type(c["name"], bases, ns))
+    for step in recipe.get("post") or []:
+        if step[0] == "setattr":        # assignment after class creation (what a mutating class decorator does)
+            k = classes[step[1]]
+            setattr(k, step[2], u_fn(step[2], f"{recipe['classes'][step[1]]['name']}.{step[2]}@set", None, classes, step[1]))
+    if recipe.get("oracle", True):
+        # harness self-check: the implementation the recipe says is designated == first definition along
+        # CPython's MRO (recipe bodies and library sources), independently of what the hooks did
+        byobj = {id(k): recipe["classes"][i] for i, k in enumerate(classes)}
+        cls, des = classes[recipe["node"]], {}
+        for op in METHS:
+            if not w_hooked(cls, op):
+                continue
+            for k in cls.__mro__:
+                c = byobj.get(id(k))
+                if c is not None:
+                    if op in c["defs"]:
+                        des[op] = f"{c['name']}.{op}"
+                        break
+                elif k.__module__.split(".")[0] == "labrea" and op in vars(k):
+                    break
+        if des != recipe["expect"]:
+            raise RuntimeError(f"recipe {recipe['id']}: expect={recipe['expect']} but the MRO designates {des}")
+    U.built[recipe["id"]] = classes
+    return classes
+
+
+def u_node(recipe):
+    from labrea import Option, Value
+    from labrea.cache import MemoryCache
+    cls = u_build(recipe)[recipe["node"]]
+    ctor = (recipe.get("ctor") or ["plain"])[0]
+    if ctor == "plain":
+        return cls()
+    if ctor == "Option":
+        return cls("A", 7)
+    if ctor == "Switch":
+        return cls("K", {"k1": Value("one"), "k2": Option("A", 0)}, Value("dflt"))
+    if ctor == "Value":
+        return cls("v")
+    if ctor == "WithOptions":
+        return cls(Option("A", 0), {"A": 10})
+    if ctor == "Cached":
+        return cls(Option("A", 0), MemoryCache())
+    if ctor == "Logged":
+        return cls(Option("A", 0), 20, "c18.logged", "c18 logged node")
+    raise ValueError(ctor)
+
+
+def u_hooked_ops(node):
+    return [m for m in METHS if w_hooked(type(node), m)]
+
+
+def u_check(recipe, node, req, calls):
+    """The property on one user-defined node after a recorded run: every execution of the implementation
+    its class designates for a hooked operation corresponds to exactly one request of that type for that
+    object, and no other function of the recipe ran in its place."""
+    out = []
+    allowed = {(op, t) for op, t in recipe["expect"].items()}
+    allowed |= {(op, t) for op, ts in (recipe.get("chained") or {}).items() for t in ts}
+    for op, tag in sorted(recipe["expect"].items()):
+        execs = sum(1 for (m, i, t) in calls if m == op and i == id(node) and t == tag)
+        reqs = req.get((id(node), op), 0)
+        if execs != reqs:
+            out.append(f"{op} of the user-defined node {node!r} (class shape {recipe['id']}): its implementation {tag} "
+                       f"ran {execs} time(s) but the pass-through handler saw {reqs} {W.REQ[op].__name__}(s) for that object")
+    for (m, i, t) in calls:
+        if i == id(node) and (m, t) not in allowed:
+            out.append(f"{m} of the user-defined node {node!r} (class shape {recipe['id']}) ran {t}, which is not the "
+                       f"implementation its class designates ({recipe['expect'].get(m)})")
+            break
+    return out
+
+
+def u_subst_ops(recipe, options):
+    """Substituting handlers for each of the four request types on a user-defined node: called directly
+    (`node.op(options)`, `node(options)`) and as the dependency of a dataset."""
+    import copy
+    import warnings
+    from labrea import dataset
+    RT, D = W.RT, W.RT._DEFAULT_HANDLERS
+    subs = {"evaluate": "SUB", "validate": None, "keys": {"C18SUB"}, "explain": {"C18SUB"}}
+    problems, checks = [], 0
+    with warnings.catch_warnings():
+        warnings.simplefilter("ignore")
+        probe = u_node(recipe)
+        ops = [m for m in u_hooked_ops(probe) if m in recipe["expect"]]
+        evaluatable = isinstance(probe, W.T.Evaluatable)
+        for where in ("direct", "call", "dataset"):
+            for m in ops:
+                if (where == "call" and m != "evaluate") or (where != "direct" and not evaluatable):
+                    continue
+                node = u_node(recipe)
+                root = node if where != "dataset" else dataset(lambda x=None: ("outer", x), defaults={"x": node})
+                hits = []
+
+                def h(r, m=m, node=node, default=D[W.REQ[m]]):
+                    if getattr(r, W.TARGET[m]) is node:
+                        hits.append(1)
+                        return subs[m]
+                    return default(r)
+                del U.calls[:]
+                o = copy.deepcopy(options)
+                try:
+                    with RT.handle(W.REQ[m], h):
+                        got = root(o) if where == "call" else getattr(root, m)(o)
+                except BaseException as e:     # noqa: BLE001
+                    got = ["raised"] + g_exc(e)
+                ran = sum(1 for (mm, i, t) in U.calls if mm == m and i == id(node))
+                checks += 1
+                if where == "dataset":
+                    ok = {"evaluate": got == ("outer", "SUB"), "validate": got is None,
+                          "keys": isinstance(got, set) and "C18SUB" in got,
+                          "explain": isinstance(got, set) and "C18SUB" in got}[m]
+                else:
+                    ok = got == subs[m] if m != "validate" else got is None
+                what = {"direct": f"node.{m}(options)", "call": "node(options)", "dataset": f"{m} of a dataset that depends on the node"}[where]
+                if not ok or ran or not hits:
+                    problems.append({"what": f"user-defined node {node!r} (class shape {recipe['id']}), {what}: a {W.REQ[m].__name__} handler "
+                                             f"that substitutes {subs[m]!r} for that node was consulted {len(hits)} time(s), the node's own "
+                                             f"{m} ran {ran} time(s), the caller got {got!r}",
+                                     "where": where, "op": m})
+    return {"id": recipe["id"], "options": options, "problems": problems, "checks": checks}
+
+
+def u_observe(recipe, options):
+    """Shapes that are kept out of the oracle: report what happens (instantiation, one call per operation)."""
+    import copy
+    import warnings
+    out = {}
+    RT, D = W.RT, W.RT._DEFAULT_HANDLERS
+    with warnings.catch_warnings():
+        warnings.simplefilter("ignore")
+        try:
+            node = u_node(recipe)
+        except BaseException as e:     # noqa: BLE001
+            return {"id": recipe["id"], "observed": {"instantiate": "raised:" + ">".join(g_exc(e)) + ": " + str(e)[:90]}}
+        for m in recipe.get("observe_ops") or u_hooked_ops(node):
+            seen = []
+
+            def h(r, m=m, default=D[W.REQ[m]]):
+                if getattr(r, W.TARGET[m]) is node:
+                    seen.append(1)
+                return default(r)
+            del U.calls[:]
+            try:
+                with RT.handle(W.REQ[m], h):
+                    getattr(node, m)(copy.deepcopy(options))
+                res = "ok"
+            except BaseException as e:     # noqa: BLE001
+                res = "raised:" + ">".join(g_exc(e))
+            ran = sum(1 for (mm, i, t) in U.calls if mm == m and i == id(node))
+            out[m] = f"{res}; requests for the node: {len(seen)}; bodies run: {ran}"
+    return {"id": recipe["id"], "observed": out}
+
+
 class Rec:
     """Recording pass-through handlers + independent execution counters (monkeypatched from here)."""
 
-    def __init__(self):
+    def __init__(self, user_classes=()):
+        self.user_classes = set(user_classes)     # classes of the family (module c18_user) that take part in this case
         self.req = {}          # (id(obj), m) -> count
         self.exe = {}          # (id(obj), m) -> count
         self.objs = {}         # id -> obj (keep alive, describe)
         self.log = []          # (request kind, id(target)) in issue order
         self.stack = []        # active slot executions
+        self.reqstack = []     # active evaluate/validate/keys/explain requests (innermost last)
         self.cache_depth = {}
         self.backend = []      # (cache cls, op, inside_request)
         self.cache_reqs = {"CacheGetRequest": 0, "CacheSetRequest": 0, "CacheExistsRequest": 0}
@@ -910,7 +1214,11 @@ class Rec:
                     rec.objs[id(t)] = t
                     rec.req[(id(t), m)] = rec.req.get((id(t), m), 0) + 1
                     rec.log.append((m, id(t)))
-                    return default(r)
+                    rec.reqstack.append({"key": (id(t), m), "used": False})
+                    try:
+                        return default(r)
+                    finally:
+                        rec.reqstack.pop()
                 return h
             hs[W.REQ[m]] = mk()
         for R in (C.CacheGetRequest, C.CacheSetRequest, C.CacheExistsRequest):
@@ -958,6 +1266,8 @@ class Rec:
             found.add(c)
             stack.extend(type.__subclasses__(c))
         for K in found:
+            if K.__module__ == "c18_user" and K not in self.user_classes:
+                continue        # cached classes of other family shapes: no instance of them exists in this case
             for m in METHS:
                 slot = f"__labrea_{m}__"
                 orig = vars(K).get(slot)
@@ -966,6 +1276,14 @@ class Rec:
 
                 def mkslot(orig=orig, m=m):
                     def counted(self, *a, **kw):
+                        user = type(self).__module__.split(".")[0] != "labrea"
+                        top = rec.reqstack[-1] if rec.reqstack else None
+                        if top is not None and top["key"] == (id(self), m) and not top["used"]:
+                            top["used"] = True      # run by the default handler of the innermost request
+                        elif user and any(fr["obj"] is self and fr["m"] == m for fr in rec.stack):
+                            # a user-defined override chaining to its parent's implementation
+                            # (Base.__labrea_m__(self, options)): same operation, not a new one
+                            return orig(self, *a, **kw)
                         rec.objs[id(self)] = self
                         rec.exe[(id(self), m)] = rec.exe.get((id(self), m), 0) + 1
                         fr = {"obj": self, "m": m, "tvr": 0, "tv": []}
@@ -977,7 +1295,7 @@ class Rec:
                             return ret
                         finally:
                             rec.stack.pop()
-                            if m == "evaluate" and isinstance(self, Option):
+                            if m == "evaluate" and isinstance(self, Option) and not user:
                                 matched = False
                                 if ok:
                                     for (v, t) in fr["tv"]:
@@ -1070,7 +1388,7 @@ OPS = ["evaluate", "validate", "keys", "explain", "evaluate"]
 
 
 def g_build(item):
-    gb = GB(item.get("shared") or [])
+    gb = GB(item.get("shared") or [], item.get("ushape"))
     root = g_special(item["special"], gb) if item.get("special") else gb.b(item["spec"])
     return root, gb
 
@@ -1095,17 +1413,20 @@ def g_case(item, options):
     with warnings.catch_warnings():
         warnings.simplefilter("ignore")
         root, gb = g_build(item)
+        del U.calls[:]
         plain = g_run_ops(root, options, probe)
-        plain_side = [list(gb.calls), len(gb.effects_seen)]
+        plain_side = [list(gb.calls), len(gb.effects_seen), [(m, t) for (m, i, t) in U.calls if i == id(gb.unode)]]
         root2, gb2 = g_build(item)
-        rec = Rec()
+        rec = Rec(u_build(item["ushape"]) if item.get("ushape") is not None else ())
         rec.install()
+        del U.calls[:]
         try:
             with W.RT.handle(rec.handlers):
                 recd = g_run_ops(root2, options, probe)
         finally:
             rec.uninstall()
-        rec_side = [list(gb2.calls), len(gb2.effects_seen)]
+        ucalls = list(U.calls)
+        rec_side = [list(gb2.calls), len(gb2.effects_seen), [(m, t) for (m, i, t) in ucalls if i == id(gb2.unode)]]
     problems = []
     if plain != recd:
         for a, b in zip(plain, recd):
@@ -1115,8 +1436,24 @@ def g_case(item, options):
     if plain_side != rec_side:
         problems.append(f"user functions / effects ran differently under pass-through handlers: plain={plain_side} recorded={rec_side}")
     problems += rec.violations()
-    if (id(root2), "evaluate") not in rec.req:
+    if (id(root2), "evaluate") not in rec.req and (item.get("ushape") is None or hasattr(root2, "evaluate")):
         problems.append("the root's evaluate was not seen as an EvaluateRequest")
+    ustats = None
+    if item.get("ushape") is not None and gb2.unode is not None:
+        recipe, node = item["ushape"], gb2.unode
+        problems += u_check(recipe, node, rec.req, ucalls)
+        if root2 is node:
+            # called directly: every operation returns what the designated implementation returns
+            for op, val in recd:
+                if op in (recipe.get("plainvals") or []):
+                    want = g_canon(u_own(op, recipe["expect"][op], options), probe)
+                    if val != want:
+                        problems.append(f"{op} of the user-defined node {node!r} (class shape {recipe['id']}) returned "
+                                        f"{json.dumps(val)[:120]}, its implementation {recipe['expect'][op]} returns {json.dumps(want)[:120]}")
+        ustats = {}
+        for (m, i, t) in ucalls:
+            if i == id(node) and recipe["expect"].get(m) == t:
+                ustats[m] = ustats.get(m, 0) + 1
     # a dataset class evaluates every evaluatable member (datasets, options, other dataset classes) through a request
     if isinstance(root2, type) and recd and recd[0][0] == "evaluate" and not (isinstance(recd[0][1], list) and recd[0][1][:1] == ["raised"]):
         from labrea.types import Evaluatable as _Ev
@@ -1137,6 +1474,8 @@ def g_case(item, options):
              "backend_inside": sum(1 for b in rec.backend if b[2]), "emitted": len(rec.emitted),
              "opt_evals": len(rec.opt_frames),
              "outcomes": [("raised:" + r[1][1]) if isinstance(r[1], list) and r[1][:1] == ["raised"] else "ok" for r in plain]}
+    if ustats is not None:
+        stats["u_execs"] = ustats
     # extension point: compare with the core model's predicted request log when available
     pred = core_request_log(item.get("name"), options)
     if pred is not None:
@@ -1333,17 +1672,24 @@ def _ovl(d):
     return dataset(lambda b=None: ("uses", b), defaults={"b": base})
 
 
+S_SHAPE_NAMES = ["apply", "bind_result", "bind_source", "cached_outer", "callback_and_effect", "case_dispatch", "case_result",
+                 "coalesce_first", "coalesce_second", "collections", "datasetclass_member", "direct_arg", "function_application_kw",
+                 "iter", "map", "map_values_nested", "option_default", "overload_impl", "pipeline", "switch_branch", "switch_default",
+                 "switch_dispatch", "template_param", "two_levels_shared", "with_options"]      # keys of s_shapes() (checked in part 4)
 S_OPTIONS = [{"A": 1, "B": "bee", "C": [1, 2], "MODE": "m1"}, {"A": -1, "B": "x", "C": [], "MODE": "m2"},
              {"A": 3, "B": "b", "C": [7], "LABREA": {"CACHE": {"DISABLED": True}}}]
 
 
-def s_case(shape, options, wrap=None):
+def s_case(shape, options, wrap=None, dep=None):
+    """`dep`: class shape (recipe) of a user-defined node that takes the place of the dataset `d`."""
     import copy
     import warnings
     from labrea import Option, Value, dataset
     from labrea.types import EvaluateRequest
     RT = W.RT
     shapes = s_shapes()
+    if dep is not None:
+        shapes["alone"] = lambda d: d
     build = shapes[shape]
     if wrap:
         inner = build
@@ -1351,6 +1697,9 @@ def s_case(shape, options, wrap=None):
     calls = []
 
     def mk_d():
+        if dep is not None:
+            return u_node(dep)
+
         @dataset
         def d(a=Option("A"), b=Option("B")):
             calls.append("d")
@@ -1376,18 +1725,21 @@ def s_case(shape, options, wrap=None):
                 hits.append(1)
                 return SUB_VALUE
             return default(r)
+        del U.calls[:]
         got = run(build(d), subst)
-        ran_d = len(calls)
+        ran_d = len(calls) if dep is None else sum(1 for (m, i, t) in U.calls if m == "evaluate" and i == id(d))
         want = run(build(Value(SUB_VALUE)), None)
         plain = run(build(mk_d()), None)
     problems = []
+    who = "dataset d" if dep is None else f"the user-defined node {d!r} (class shape {dep['id']})"
     if got != want:
-        problems.append(f"substituting {SUB_VALUE!r} for dataset d by an EvaluateRequest handler gives {json.dumps(got)[:150]} "
+        problems.append(f"substituting {SUB_VALUE!r} for {who} by an EvaluateRequest handler gives {json.dumps(got)[:150]} "
                         f"but the same graph over Value({SUB_VALUE!r}) gives {json.dumps(want)[:150]}")
     if ran_d:
-        problems.append(f"the body of the substituted dataset ran {ran_d} time(s)")
+        problems.append(f"the body of the substituted {'dataset' if dep is None else 'node'} ran {ran_d} time(s)")
     return {"shape": shape, "wrap": wrap, "options": options, "got": got, "want": want, "plain": plain,
-            "hits": len(hits), "problems": problems, "distinguishes": plain != want}
+            "hits": len(hits), "problems": problems, "distinguishes": plain != want,
+            "dep": dep["id"] if dep is not None else None}
 
 
 def w_subst(job):
@@ -1395,12 +1747,26 @@ def w_subst(job):
     out = []
     for c in job["cases"]:
         try:
-            out.append(s_case(c["shape"], c["options"], c.get("wrap")))
+            out.append(s_case(c["shape"], c["options"], c.get("wrap"), c.get("dep")))
         except BaseException as e:     # noqa: BLE001
             import traceback
             out.append({"shape": c["shape"], "wrap": c.get("wrap"), "options": c["options"], "problems": [],
+                        "dep": (c.get("dep") or {}).get("id"),
                         "harness_error": f"{type(e).__name__}: {e} {traceback.format_exc()[-500:]}"})
-    return {"cases": out, "shapes": sorted(s_shapes())}
+    uout, uobs = [], []
+    for c in job.get("ucases") or []:
+        try:
+            uout.append(u_subst_ops(c["recipe"], c["options"]))
+        except BaseException as e:     # noqa: BLE001
+            import traceback
+            uout.append({"id": c["recipe"]["id"], "options": c["options"], "problems": [], "checks": 0,
+                         "harness_error": f"{type(e).__name__}: {e} {traceback.format_exc()[-500:]}"})
+    for c in job.get("uobserve") or []:
+        try:
+            uobs.append(u_observe(c["recipe"], c["options"]))
+        except BaseException as e:     # noqa: BLE001
+            uobs.append({"id": c["recipe"]["id"], "observed": {"harness": f"{type(e).__name__}: {e}"}})
+    return {"cases": out, "shapes": sorted(s_shapes()), "ucases": uout, "uobserve": uobs}
 
 
 def worker_main():
@@ -1573,6 +1939,177 @@ def random_items(rng, n):
     return items
 
 
+# ---------------------------------------------------------------------------------- user-defined classes (part 5)
+U_OPS = {"E": METHS, "V": ["validate"], "C": ["keys"], "X": ["explain"], "VX": ["validate", "explain"]}
+U_ROOT = {"E": "Evaluatable", "V": "Validatable", "C": "Cacheable", "X": "Explainable", "VX": "Effect"}
+
+
+def user_family():
+    """The directed family of user-defined node class shapes (recipes, see u_build): for every hook-bearing
+    base and every operation, each way the implementation can reach the class. Independent of the seed.
+    `expect`: operation -> the function the class designates (first definition along the MRO);
+    `oracle: False`: shape kept out of the violation oracle (observed and reported in the evidence)."""
+    fam = []
+
+    def K(name, bases, defs, **kw):
+        return dict({"name": name, "bases": bases, "defs": defs if isinstance(defs, dict) else {op: None for op in defs}}, **kw)
+
+    def add(rid, kind, source, classes, expect, **kw):
+        plain = [op for op, t in expect.items()
+                 if all(c["defs"].get(op) is None for c in classes if f"{c['name']}.{op}" == t)]
+        fam.append(dict({"id": rid, "kind": kind, "source": source, "classes": classes, "node": len(classes) - 1,
+                         "expect": expect, "plainvals": plain, "ctor": ["plain"], "oracle": True}, **kw))
+    for kind, ops in U_OPS.items():
+        R = U_ROOT[kind]
+        tr = {"transform": True} if kind == "VX" else {}
+        add(f"{kind}.body", kind, "body", [K("Node", [R], ops, **tr)], {op: f"Node.{op}" for op in ops})
+        for m in ops:
+            rest = [op for op in ops if op != m]
+            add(f"{kind}.mixin_before.{m}", kind, "mixin_before",
+                [K("Mix", [], [m]), K("Node", [0, R], rest, **tr)],
+                dict({op: f"Node.{op}" for op in rest}, **{m: f"Mix.{m}"}))
+            add(f"{kind}.parent.{m}", kind, "parent",
+                [K("P", [R], [m], **tr), K("Node", [0], rest)],
+                dict({op: f"Node.{op}" for op in rest}, **{m: f"P.{m}"}))
+            add(f"{kind}.override.{m}", kind, "override",
+                [K("P", [R], ops, **tr), K("Mid", [0], []), K("Node", [1], [m])],
+                dict({op: f"P.{op}" for op in rest}, **{m: f"Node.{m}"}))
+            add(f"{kind}.override_chain_slot.{m}", kind, "override_chain_slot",
+                [K("P", [R], ops, **tr), K("Node", [0], {m: ["slot", 0]})],
+                dict({op: f"P.{op}" for op in rest}, **{m: f"Node.{m}"}), chained={m: [f"P.{m}"]})
+            add(f"{kind}.mixin_before_parent.{m}", kind, "mixin_before_parent",
+                [K("P", [R], ops, **tr), K("Mix", [], [m]), K("Node", [1, 0], [])],
+                dict({op: f"P.{op}" for op in rest}, **{m: f"Mix.{m}"}))
+            add(f"{kind}.override_chain_super.{m}", kind, "override_chain_super",
+                [K("P", [R], ops, **tr), K("Node", [0], {m: ["super"]})],
+                dict({op: f"P.{op}" for op in rest}, **{m: f"Node.{m}"}), oracle=False, observe_ops=[m],
+                note="super().m(options) in an override re-enters the request dispatch of the same object")
+            add(f"{kind}.setattr_after.{m}", kind, "setattr_after",
+                [K("Node", [R], ops, **tr)], {op: f"Node.{op}" for op in ops}, post=[["setattr", 0, m]],
+                oracle=False, observe_ops=[m],
+                note="assignment after class creation (mutating class decorator): the hooks only run at class creation")
+            if kind in ("E", "VX"):
+                add(f"{kind}.mixin_after.{m}", kind, "mixin_after_shadowed",
+                    [K("Mix", [], [m]), K("Node", [R, 0], rest, **tr)],
+                    {op: f"Node.{op}" for op in rest}, oracle=False, observe_ops=[m],
+                    note="a mixin listed after the labrea base is shadowed by the base's abstract method")
+    # a mixin listed after one labrea base and before the one that hooks the method (MRO makes it reachable)
+    for m, first, last, other in [("validate", "Explainable", "Validatable", "explain"),
+                                  ("keys", "Validatable", "Cacheable", "validate"),
+                                  ("explain", "Cacheable", "Explainable", "keys")]:
+        add(f"multi.mixin_after.{m}", "multi", "mixin_after",
+            [K("Mix", [], [m]), K("Node", [first, 0, last], [other])], {m: f"Mix.{m}", other: f"Node.{other}"})
+    # combinations: some operations from mixins, others from the body / a parent
+    e, v, k, x = METHS
+    own = lambda ops, who="Node": {op: f"{who}.{op}" for op in ops}      # noqa: E731
+    add("E.mix.all_from_one_mixin", "E", "mixed", [K("Mix", [], METHS), K("Node", [0, "Evaluatable"], [])], own(METHS, "Mix"))
+    add("E.mix.keys_explain_from_mixin", "E", "mixed", [K("Mix", [], [k, x]), K("Node", [0, "Evaluatable"], [e, v])],
+        dict(own([e, v]), **own([k, x], "Mix")))
+    add("E.mix.all_but_evaluate_from_mixin", "E", "mixed", [K("Mix", [], [v, k, x]), K("Node", [0, "Evaluatable"], [e])],
+        dict(own([e]), **own([v, k, x], "Mix")))
+    add("E.mix.two_mixins", "E", "mixed", [K("MixA", [], [e, v]), K("MixB", [], [k, x]), K("Node", [0, 1, "Evaluatable"], [])],
+        dict(own([e, v], "MixA"), **own([k, x], "MixB")))
+    add("E.mix.mixin_subclass", "E", "mixed", [K("MixA", [], [e]), K("MixB", [0], [k]), K("Node", [1, "Evaluatable"], [v, x])],
+        dict(own([v, x]), **{e: "MixA.evaluate", k: "MixB.keys"}))
+    add("E.mix.body_shadows_mixin", "E", "mixed", [K("Mix", [], [e, k]), K("Node", [0, "Evaluatable"], METHS)], own(METHS))
+    add("E.mix.parent_built_on_mixin", "E", "mixed", [K("Mix", [], [e]), K("P", [0, "Evaluatable"], [v, k, x]), K("Node", [1], [])],
+        dict(own([v, k, x], "P"), **{e: "Mix.evaluate"}))
+    add("E.mix.parent_built_on_mixin_override", "E", "mixed",
+        [K("Mix", [], [e, k]), K("P", [0, "Evaluatable"], [v, x]), K("Node", [1], [e])],
+        dict(own([v, x], "P"), **{e: "Node.evaluate", k: "Mix.keys"}))
+    add("E.mix.diamond", "E", "mixed", [K("P", ["Evaluatable"], METHS), K("A", [0], [e]), K("B", [0], [k]), K("Node", [1, 2], [])],
+        {e: "A.evaluate", k: "B.keys", v: "P.validate", x: "P.explain"})
+    # subclasses of built-in node classes overriding one operation
+    for B in ("Option", "Switch", "WithOptions"):
+        for m in METHS:
+            add(f"{B}.override.{m}", "builtin", "builtin_override", [K("Node", [B], [m])], {m: f"Node.{m}"}, ctor=[B])
+    add("Cached.override.evaluate", "builtin", "builtin_override", [K("Node", ["Cached"], [e])], own([e]), ctor=["Cached"])
+    add("Logged.override.explain", "builtin", "builtin_override", [K("Node", ["Logged"], [x])], own([x]), ctor=["Logged"])
+    add("Value.override.keys", "builtin", "builtin_override", [K("Node", ["Value"], [k])], own([k]), ctor=["Value"])
+    add("Option.mixin_before.evaluate", "builtin", "builtin_mixin_before", [K("Mix", [], [e]), K("Node", [0, "Option"], [])],
+        own([e], "Mix"), ctor=["Option"])
+    add("Switch.mixin_before.keys", "builtin", "builtin_mixin_before", [K("Mix", [], [k]), K("Node", [0, "Switch"], [])],
+        own([k], "Mix"), ctor=["Switch"])
+    add("WithOptions.mixin_before.validate_explain", "builtin", "builtin_mixin_before",
+        [K("Mix", [], [v, x]), K("Node", [0, "WithOptions"], [])], own([v, x], "Mix"), ctor=["WithOptions"])
+    add("Option.override_chain_slot.evaluate", "builtin", "builtin_override_chain_slot",
+        [K("Node", ["Option"], {e: ["slot", "Option"]})], own([e]), ctor=["Option"])
+    add("Option.override_chain_super.evaluate", "builtin", "override_chain_super",
+        [K("Node", ["Option"], {e: ["super"]})], own([e]), ctor=["Option"], oracle=False, observe_ops=[e],
+        note="super().m(options) in an override re-enters the request dispatch of the same object")
+    return fam
+
+
+def user_contexts(kind, every_combinator):
+    """Graphs around the user-defined node `["unode"]`: alone, dependency of datasets, inside the combinators."""
+    N = ["unode"]
+    DS = lambda f, deps, **fl: ["ds", f, deps, fl]      # noqa: E731
+    if kind in ("V", "C", "X", "multi"):
+        return {"alone": N}
+    if kind == "VX":
+        return {"alone": N, "dataset_effect": DS("first", [["optd", "A", 1]], effect_dep=N)}
+    comb = {
+        "apply": ["apply", N, "ident"],
+        "bind": ["bind", ["optd", "A", 0], [N, ["val", "v"]]],
+        "iter": ["iter", [N, ["val", 2]]],
+        "list": ["list", [N, N]],
+        "coalesce": ["coalesce", [["opt", "MISSING"], N, ["val", "last"]]],
+        "switch": ["switch", ["optd", "K", "k1"], {"k1": N, "k2": ["val", "two"]}, N],
+        "case": ["case", ["optd", "A", 1], [["pos", N]], N],
+        "template": ["tmpl", "x{:p:}y", {"p": N}],
+        "with_options": ["with", N, {"A": 10}, True],
+        "cached": ["cached", N],
+        "logged": ["logged", N, 1],
+        "function_application": ["fa", "tup", [N, ["pa", "tup", [N]]]],
+        "map": ["map", N, {"A": ["val", [1, 2]]}],
+        "pipeline": ["pipe", N, [["ident", []], ["tup", [N]]]],
+        "overloaded": ["overloaded", ["optd", "MODE", "none"], {"alt": N}, N],
+        "option_default": ["optd", "MISSING", N],
+        "dataset_effect": DS("first", [["val", 1]], effect_dep=["step", "ident", [N]]),
+    }
+    out = {"alone": N,
+           "datasets": DS("tup", [DS("first", [N]), N, ["optd", "B", "b"]]),      # direct and indirect dependency, shared
+           "combinators": ["dict", comb]}
+    if every_combinator:
+        out["dataset"] = DS("tup", [N, ["optd", "B", "b"]])
+        out.update({"in_" + k: v for k, v in comb.items()})
+    return out
+
+
+def user_items(ctx):
+    """Recording cases of the family: quick = one option dictionary per (shape, context), rotating with the
+    seed; thorough = every option dictionary and every combinator also on its own."""
+    items, n = [], 0
+    for r in user_family():
+        if not r["oracle"]:
+            continue
+        for cname, spec in user_contexts(r["kind"], ctx.tier == "thorough").items():
+            opts = ALL_OPTS if ctx.tier == "thorough" else [ALL_OPTS[(ctx.seed + n) % len(ALL_OPTS)]]
+            items.append({"name": f"ufam:{r['id']}:{cname}", "spec": spec, "ushape": r, "options": opts})
+            n += 1
+    return items
+
+
+def user_subst_cases(ctx, shapes):
+    cases, ucases, n = [], [], 0
+    others = [s for s in shapes if s not in ("direct_arg", "two_levels_shared")]
+    fam = user_family()
+    for r in fam:
+        if not r["oracle"]:
+            continue
+        ucases.append({"recipe": r, "options": S_OPTIONS[(ctx.seed + n) % len(S_OPTIONS)]})
+        if r["kind"] in ("E", "builtin"):
+            mine = ["alone", "direct_arg", "two_levels_shared"]
+            mine += others if ctx.tier == "thorough" else [others[(ctx.seed + n * 2 + j) % len(others)] for j in range(2)]
+            for sname in dict.fromkeys(mine):
+                for o in (S_OPTIONS if ctx.tier == "thorough" else [S_OPTIONS[(ctx.seed + n) % len(S_OPTIONS)]]):
+                    cases.append({"shape": sname, "options": o, "dep": r})
+                    n += 1
+        n += 1
+    uobserve = [{"recipe": r, "options": S_OPTIONS[0]} for r in fam if not r["oracle"]]
+    return cases, ucases, uobserve
+
+
 # ---------------------------------------------------------------------------------- chains (part 2)
 def chain_corpus(info):
     idof = {c["full"]: c["id"] for c in info["classes"]}
@@ -1612,7 +2149,80 @@ def chain_corpus(info):
             for t1 in ["-", "d", "a0.e", "f1", f"t{VAL}.e"]:
                 for s1 in "01":
                     fixed.append(f"T:{E}|{t0},d,d,d,{s0}000|{t1},-,-,-,{s1}000")
+    # ---- plain mixin classes in the bases (tokens m<j> = listed before the parent, n<j> = listed after it)
+    fixed += [
+        f"T:{E}|m1,d,d,d,0000",                                              # class Table(ReadsTable, Evaluatable)
+        f"T:{E}|d,m1,m1,m2,0000",
+        f"T:{E}|m1,m1,m1,m1,0000",                                           # everything from one mixin
+        f"T:{E}|d,d,d,d,0000|m1,-,-,-,0000",                                 # mixin before a user-defined subclass
+        f"T:{E}|d,d,d,d,0000|m1,-,m2,-,0000|-,-,-,-,0000|d,-,-,-,0000",
+        f"T:{E}|m1,d,d,d,0000|-,-,-,-,0000|a0.e,-,-,-,0000",
+        f"T:{E}|m1,d,d,d,0000|d,-,-,-,0000|a0.e,-,-,-,0000",                 # alias back across an override
+        f"T:{E}|m1,d,d,d,1000",                                              # def __labrea_evaluate__ and a mixin evaluate
+        f"T:{E}|n1,d,d,d,0000",                                              # after the base: shadowed by the abstract method
+        f"T:{E}|d,d,d,d,0000|n1,n1,-,-,0000",
+        f"T:{E}|d,d,d,d,0000|n1,m2,-,-,0000|-,-,-,-,0000",
+        f"T:{V}|-,m1,-,-,0000", f"T:{C}|-,-,m1,-,0000", f"T:{X}|-,-,-,m1,0000",
+        f"T:{V}|-,-,m1,-,0000",                                              # a mixin method nobody hooks here
+        f"M:{V},{X}|-,m1,-,m2,0000|-,-,-,d,0000",
+        f"T:{EFF}|-,m1,-,d,0000|-,-,-,m2,0000",
+        f"T:{OPT}|m1,-,-,-,0000", f"T:{OPT}|-,m1,-,-,0000", f"T:{OPT}|-,-,m1,-,0000", f"T:{OPT}|-,-,-,m1,0000",
+        f"T:{VAL}|-,-,m1,-,0000|m2,-,-,-,0000",
+    ]
+    for t0 in ["-", "d", "m1", "n1"]:
+        for t1 in ["-", "d", "m2", "n2", "a0.e"]:
+            if (t0 + t1).count("m") + (t0 + t1).count("n"):
+                fixed.append(f"T:{E}|{t0},d,d,d,0000|{t1},-,-,-,0000")
     return fixed, {"E": E, "V": V, "C": C, "X": X, "VAL": VAL, "OPT": OPT, "EFF": EFF, "META": META}
+
+
+def chain_to_model(spec):
+    """The chain as the Hook model sees it. The model has no mixin classes; what the hooks look at is the
+    first own-dict entry along the MRO of the class being created, so
+      m<j> (function j found on a plain mixin listed before the parent)  =  p<j> (function j bound in the body),
+      n<j> (mixin listed after a parent that defines the method: unreachable)  =  - (absent).
+    n tokens are only generated below Evaluatable, where all four names are defined by the bases."""
+    parts = spec.split("|")
+    out = [parts[0]]
+    for b in parts[1:]:
+        toks = b.split(",")
+        out.append(",".join([("p" + t[1:]) if t[:1] == "m" else ("-" if t[:1] == "n" else t) for t in toks[:4]] + toks[4:]))
+    return "|".join(out)
+
+
+def random_mixin_chain(rng, info, ids):
+    """Random chains with mixin tokens (own random stream: the chains of random_chain are unchanged)."""
+    below_e = [c["id"] for c in info["classes"] if c["root"] is None and c["id"] != ids["META"] and c["parents"] == [ids["E"]]]
+    r = rng.random()
+    if r < 0.5:
+        base, after_ok = f"T:{ids['E']}", True
+    elif r < 0.7:
+        base, after_ok = f"T:{rng.choice(below_e)}", True
+    elif r < 0.85:
+        base, after_ok = f"T:{rng.choice([ids['V'], ids['C'], ids['X'], ids['EFF']])}", False
+    else:
+        base, after_ok = "M:" + ",".join(str(x) for x in rng.sample([ids["V"], ids["C"], ids["X"]], 2)), False
+    bodies = []
+    for i in range(rng.randint(1, 4)):
+        toks = []
+        for m in METHS:
+            r = rng.random()
+            if r < 0.3:
+                t = "-"
+            elif r < 0.55:
+                t = "d"
+            elif r < 0.8:
+                t = f"m{rng.randint(3, 4)}"
+            elif r < 0.88 and after_ok:
+                t = f"n{rng.randint(5, 6)}"
+            elif r < 0.94 and i > 0:
+                t = f"a{rng.randrange(i)}.{ML[m]}"
+            else:
+                t = f"p{rng.randint(1, 2)}"
+            toks.append(t)
+        flags = "".join("1" if rng.random() < 0.05 else "0" for _ in METHS)
+        bodies.append(",".join(toks + [flags]))
+    return base + "|" + "|".join(bodies)
 
 
 def random_chain(rng, info, ids):
@@ -1653,8 +2263,10 @@ def random_chain(rng, info, ids):
 
 
 def simple_chain_expectation(spec):
-    """Model-independent oracle for chains that only use `-` and `d` (no slots, no aliases) for a
-    method: the function that runs is the most-derived `def`, through exactly one request."""
+    """Model-independent oracle for chains that only use `-`, `d` and mixin tokens (no slots, no aliases)
+    for a method: the function that runs is the most-derived `def` / mixin function listed before the
+    parent, through exactly one request. (Applied to hooked methods only: there a mixin listed after the
+    parent is shadowed by the parent's definition.)"""
     parts = spec.split("|")
     bodies = [b.split(",") for b in parts[1:]]
     exp = []
@@ -1663,9 +2275,10 @@ def simple_chain_expectation(spec):
         for j, m in enumerate(METHS):
             col = [b[j] for b in bodies[: i + 1]]
             flags = [b[4][j] for b in bodies[: i + 1]]
-            if all(t in ("-", "d") for t in col) and all(f == "0" for f in flags) and "d" in col:
-                last = max(k for k, t in enumerate(col) if t == "d")
-                row[m] = f"u{1000 + last}.{ML[m]}"
+            defs = [k for k, t in enumerate(col) if t == "d" or t[:1] == "m"]
+            if all(t in ("-", "d") or t[:1] in "mn" for t in col) and all(f == "0" for f in flags) and defs:
+                last = max(defs)
+                row[m] = f"u{1000 + last}.{ML[m]}" if col[last] == "d" else "x" + col[last][1:]
         exp.append(row)
     return exp
 
@@ -1693,7 +2306,7 @@ def compare_chains(specs, worker_results, model_lines, use_model):
                     if req != ML[m] or ran != exp[i][m]:
                         findings.append(Finding(
                             "failing-input",
-                            f"class {i} of a def-only subclass chain: calling {m} issued requests [{req}] and ran {ran}; "
+                            f"class {i} of a def/mixin-only subclass chain: calling {m} issued requests [{req}] and ran {ran}; "
                             f"expected one {m} request and the most-derived def {exp[i][m]}",
                             {"part": 2, "chain": spec, "class": i, "method": m}))
         if use_model:
@@ -1771,9 +2384,11 @@ def part1(info, use_model):
 def part2(ctx, info, rng, n_random, use_model):
     fixed, ids = chain_corpus(info)
     specs = list(fixed) + [random_chain(rng, info, ids) for _ in range(n_random)]
+    rng_mix = random.Random(ctx.seed * 7919 + 18)
+    specs += [random_mixin_chain(rng_mix, info, ids) for _ in range(max(20, n_random // 8))]
     res = run_worker({"job": "chains", "info": info, "chains": specs})["results"]
     norm = [r["spec"] for r in res]
-    model_lines = run_driver("drv_hook", norm) if use_model else []
+    model_lines = run_driver("drv_hook", [chain_to_model(s) for s in norm]) if use_model else []
     findings, stats = compare_chains(norm, res, model_lines, use_model)
     # shrink the first disagreement of each kind
     done = set()
@@ -1784,7 +2399,7 @@ def part2(ctx, info, rng, n_random, use_model):
 
             def still(spec, kind=kind):
                 r = run_worker({"job": "chains", "info": info, "chains": [spec]})["results"]
-                ml_ = run_driver("drv_hook", [r[0]["spec"]]) if use_model else []
+                ml_ = run_driver("drv_hook", [chain_to_model(r[0]["spec"])]) if use_model else []
                 fs, _ = compare_chains([r[0]["spec"]], r, ml_, use_model)
                 return any(x.kind == kind for x in fs)
             try:
@@ -1798,30 +2413,51 @@ def part2(ctx, info, rng, n_random, use_model):
     for s in norm:
         for b in s.split("|")[1:]:
             for t in b.split(",")[:4]:
-                k = t[0] if t[0] in "-dpfabt" else "?"
+                k = t[0] if t[0] in "-dpfabtmn" else "?"
                 hist[k] = hist.get(k, 0) + 1
-    nontrivial = len({s for s in norm if any(t[0] in "pfabt" or fl != "0000" for b in s.split("|")[1:]
+    nontrivial = len({s for s in norm if any(t[0] in "pfabtmn" or fl != "0000" for b in s.split("|")[1:]
                                              for t, fl in [(x, b.split(",")[4]) for x in b.split(",")[:4]])})
     cov = {"chains": len(norm), "chains_nontrivial": nontrivial, "chain_classes": stats["classes"],
+           "chains_with_mixin_bases": sum(1 for s in norm if any(t[:1] in "mn" for b in s.split("|")[1:] for t in b.split(",")[:4])),
            "chain_token_histogram": hist, "chain_methods_premises_hold": stats["ok1"],
            "chain_methods_premises_fail": stats["ok0"], "chain_oracle_checks": stats["oracle_checks"],
            "chain_samples": norm[3:6]}
     return findings, cov
 
 
-def part3(ctx, rng, n_random):
+def family_jobs(ctx):
+    """The two worker jobs of the user-defined class family (part 5); they are independent of the other
+    parts and run in their own worker processes, concurrently with parts 1-4."""
+    shapes = sorted(S_SHAPE_NAMES)
+    ucs, ucases, uobserve = user_subst_cases(ctx, shapes)
+    return ({"job": "graphs", "items": user_items(ctx)},
+            {"job": "subst", "cases": ucs, "ucases": ucases, "uobserve": uobserve})
+
+
+def part3(ctx, rng, n_random, family):
+    uitems = family[0]["items"]
     items = fixed_corpus() + random_items(rng, n_random)
     findings = []
-    res = run_worker({"job": "graphs", "items": items})["cases"]
+    res = run_worker({"job": "graphs", "items": items})["cases"] + family[2].result()["cases"]
+    items = items + uitems
     byname = {it["name"]: it for it in items}
     kinds, classes, outcomes = {}, set(), {}
     ncases = 0
     distinct = set()
+    ufam = {}
     for r in res:
         ncases += 1
         if r.get("harness_error"):
             raise Infra(f"graph corpus item {r['name']} could not be run: {r['harness_error']}")
         st = r["stats"]
+        if byname[r["name"]].get("ushape") is not None:
+            u = ufam.setdefault(byname[r["name"]]["ushape"]["id"], {"record_cases": 0, "operations_routed": 0, "contexts_reaching_node": 0,
+                                                                     "outcomes": {}})
+            u["record_cases"] += 1
+            u["operations_routed"] += sum((st.get("u_execs") or {}).values())
+            u["contexts_reaching_node"] += 1 if st.get("u_execs") else 0
+            for o in st.get("outcomes", []):
+                u["outcomes"][o] = u["outcomes"].get(o, 0) + 1
         for k, v in st.get("kinds", {}).items():
             kinds[k] = kinds.get(k, 0) + v
         classes.update(st.get("classes", []))
@@ -1840,9 +2476,9 @@ def part3(ctx, rng, n_random):
     # shrink random graphs (replace sub-trees by constants) for the first finding
     for f in findings[:1]:
         it = f.payload.get("item")
-        if it and "spec" in it and it["name"].startswith("random"):
+        if it and "spec" in it and it["name"].startswith(("random", "ufam:")):
             f.payload["item"] = shrink_graph(it)
-    cov = {"graph_cases": ncases, "graphs": len(items), "graph_cases_nontrivial": len(distinct),
+    cov = {"graph_cases": ncases, "graphs": len(items), "graph_cases_nontrivial": len(distinct), "user_family_record": ufam,
            "request_kinds_seen": kinds, "node_classes_executed": sorted(classes), "outcomes": outcomes,
            "intercept_checks": ic["checks"]}
     return findings, cov
@@ -1892,24 +2528,45 @@ def shrink_graph(item):
     return cur
 
 
-def part4(ctx, rng, n_random):
-    shapes = run_worker({"job": "subst", "cases": []})["shapes"]
+def part4(ctx, rng, n_random, family):
+    shapes = sorted(S_SHAPE_NAMES)
     cases = [{"shape": s, "options": o} for s in shapes for o in S_OPTIONS]
     wrappable = [s for s in shapes if s not in ("switch_dispatch", "case_dispatch", "datasetclass_member", "map",
                                                  "map_values_nested", "iter", "pipeline")]
     for _ in range(n_random):
         cases.append({"shape": rng.choice(shapes), "wrap": rng.choice(wrappable), "options": rng.choice(S_OPTIONS)})
-    res = run_worker({"job": "subst", "cases": cases})["cases"]
+    recipes = {r["id"]: r for r in user_family()}
+    out = run_worker({"job": "subst", "cases": cases})
+    if out["shapes"] != shapes:
+        raise Infra(f"S_SHAPE_NAMES is out of date: the worker builds {out['shapes']}")
+    fam_out = family[3].result()
+    out = {"cases": out["cases"] + fam_out["cases"], "ucases": fam_out["ucases"], "uobserve": fam_out["uobserve"]}
+    res = out["cases"]
     findings = []
     dist = 0
+    ufam = {}
     for r in res:
         if r.get("harness_error"):
             raise Infra(f"substitution case {r['shape']} could not be run: {r['harness_error']}")
         dist += 1 if r.get("distinguishes") else 0
+        case = {"shape": r["shape"], "wrap": r.get("wrap"), "options": r["options"]}
+        if r.get("dep"):
+            case["dep"] = recipes[r["dep"]]
+            u = ufam.setdefault(r["dep"], {"subst_cases": 0, "subst_op_checks": 0})
+            u["subst_cases"] += 1
         if r["problems"]:
             findings.append(Finding("failing-input", f"substitution [{r['shape']}" + (f" inside {r['wrap']}" if r.get("wrap") else "") + "]: " + r["problems"][0],
-                                    {"part": 4, "case": {"shape": r["shape"], "wrap": r.get("wrap"), "options": r["options"]}}))
-    cov = {"substitution_cases": len(res), "substitution_cases_where_value_matters": dist, "substitution_shapes": shapes}
+                                    {"part": 4, "case": case}))
+    for r in out["ucases"]:
+        if r.get("harness_error"):
+            raise Infra(f"substitution on the user-defined class shape {r['id']} could not be run: {r['harness_error']}")
+        ufam.setdefault(r["id"], {"subst_cases": 0, "subst_op_checks": 0})["subst_op_checks"] += r["checks"]
+        for pr in r["problems"][:1]:
+            findings.append(Finding("failing-input", pr["what"], {"part": "4u", "ucase": {"recipe": recipes[r["id"]], "options": r["options"]},
+                                                                  "all_problems": [x["what"] for x in r["problems"]][:8]}))
+    observed = {r["id"]: dict(r["observed"], note=recipes[r["id"]].get("note")) for r in out["uobserve"]}
+    cov = {"substitution_cases": len(res), "substitution_cases_where_value_matters": dist, "substitution_shapes": shapes,
+           "user_family_subst": ufam, "user_family_observed_only": observed}
     return findings, cov
 
 
@@ -1919,13 +2576,48 @@ def run_all(ctx, use_model, scale=1.0):
     big = 10 if ctx.tier == "thorough" else 1
     findings = [Finding("translator", p["what"], {k: v for k, v in p.items() if k != "what"}) for p in problems]
     coverage = {"translator_classes": len(info["classes"]), "translator_files": info["files"]}
-    f1, c1 = part1(info, use_model)
-    f2, c2 = part2(ctx, info, rng, int(1500 * big * scale), use_model)
-    f3, c3 = part3(ctx, rng, int(300 * big * scale))
-    f4, c4 = part4(ctx, rng, int(80 * big * scale))
+    from concurrent.futures import ThreadPoolExecutor
+    jobs = family_jobs(ctx)
+    with ThreadPoolExecutor(2) as pool:
+        family = jobs + tuple(pool.submit(run_worker, j) for j in jobs)
+        f1, c1 = part1(info, use_model)
+        f2, c2 = part2(ctx, info, rng, int(1500 * big * scale), use_model)
+        f3, c3 = part3(ctx, rng, int(300 * big * scale), family)
+        f4, c4 = part4(ctx, rng, int(80 * big * scale), family)
     for c in (c1, c2, c3, c4):
         coverage.update(c)
     findings += f1 + f2 + f3 + f4
+    # part 5: the user-defined class family, counts per shape
+    fam = user_family()
+    per_shape = {}
+    for r in fam:
+        d = {"kind": r["kind"], "source": r["source"], "in_oracle": r["oracle"]}
+        d.update(coverage["user_family_record"].get(r["id"], {}))
+        d.update(coverage["user_family_subst"].get(r["id"], {}))
+        if not r["oracle"]:
+            d["observed"] = coverage["user_family_observed_only"].get(r["id"])
+        per_shape[r["id"]] = d
+    by_source = {}
+    for r in fam:
+        by_source[r["source"]] = by_source.get(r["source"], 0) + 1
+    for k in ("user_family_record", "user_family_subst", "user_family_observed_only"):
+        coverage.pop(k, None)
+    coverage["user_class_family"] = {
+        "shapes": len(fam), "shapes_in_oracle": sum(1 for r in fam if r["oracle"]), "shapes_by_source": by_source,
+        "record_cases": sum(d.get("record_cases", 0) for d in per_shape.values()),
+        "subst_cases": sum(d.get("subst_cases", 0) for d in per_shape.values()),
+        "subst_op_checks": sum(d.get("subst_op_checks", 0) for d in per_shape.values()),
+        "operations_routed": sum(d.get("operations_routed", 0) for d in per_shape.values()),
+        "per_shape": per_shape,
+    }
+    # the first finding of every part first (the check writes replay files for the first few findings)
+    firsts, seen_parts = [], set()
+    for f in findings:
+        k = (f.kind, str(f.payload.get("part")))
+        if k not in seen_parts:
+            seen_parts.add(k)
+            firsts.append(f)
+    findings = firsts + [f for f in findings if not any(f is g for g in firsts)]
     for f in findings:
         if f.kind == "failing-input":
             f.known_id = classify(f.payload)
@@ -1935,7 +2627,7 @@ def run_all(ctx, use_model, scale=1.0):
         "distinct_nontrivial": c2["chains_nontrivial"] + c3["graph_cases_nontrivial"] + c4["substitution_cases_where_value_matters"],
         "rule": "chains: uses an alias/fake/outside function or a slot def; graphs: the recorded run issued >= 5 requests; "
                 "substitution: the graph's result with the real dataset differs from the substituted one",
-        "programs": c2["chains"] + c3["graphs"] + len(c4["substitution_shapes"]),
+        "programs": c2["chains"] + c3["graphs"] + len(c4["substitution_shapes"]) + len(fam),
         "disagreements_checked": c2["chain_classes"] * 4 + c1.get("table_lines_compared", 0),
         "samples": c2["chain_samples"] + [c1.get("sample_table_line", "")],
         "distribution": {"chain_tokens": c2["chain_token_histogram"], "request_kinds": c3["request_kinds_seen"],
@@ -2009,8 +2701,8 @@ def replay(ctx, payload):
         spec = payload["chain"]
         r = run_worker({"job": "chains", "info": info, "chains": [spec]})["results"]
         use_model = driver_path("drv_hook").exists()
-        ml_ = run_driver("drv_hook", [r[0]["spec"]]) if use_model else []
-        print("  chain:", r[0]["spec"])
+        ml_ = run_driver("drv_hook", [chain_to_model(r[0]["spec"])]) if use_model else []
+        print("  chain:", r[0]["spec"], "" if chain_to_model(r[0]["spec"]) == r[0]["spec"] else f"(for the model: {chain_to_model(r[0]['spec'])})")
         print("  impl :", "|".join(";".join(c) for c in r[0].get("obs", [])) or r[0].get("error"))
         print("  model:", ml_[0] if ml_ else "(driver not built)")
         fs, _ = compare_chains([r[0]["spec"]], r, ml_, use_model)
@@ -2020,6 +2712,9 @@ def replay(ctx, payload):
     elif part == 3 and "item" in payload:
         r = run_worker({"job": "graphs", "items": [payload["item"]], "verbose": True})["cases"]
         bad = False
+        if payload["item"].get("ushape") is not None:
+            print("  class shape of [\"unode\"]:", json.dumps({k: payload["item"]["ushape"].get(k) for k in ("id", "classes", "ctor", "expect")}))
+            print("  graph   :", json.dumps(payload["item"].get("spec"))[:700])
         for c in r:
             print("  options :", json.dumps(c["options"]))
             print("  plain   :", json.dumps(c.get("plain"))[:600])
@@ -2033,8 +2728,18 @@ def replay(ctx, payload):
         for p in ps:
             print("  PROBLEM :", p["what"])
         bad = bool(ps)
+    elif part == "4u":
+        r = run_worker({"job": "subst", "cases": [], "ucases": [payload["ucase"]]})["ucases"][0]
+        print("  class shape:", json.dumps({k: payload["ucase"]["recipe"][k] for k in ("id", "classes", "ctor", "expect")}))
+        for p in r["problems"]:
+            print("  PROBLEM :", p["what"])
+        if r.get("harness_error"):
+            print("  harness error:", r["harness_error"])
+        bad = bool(r["problems"]) or bool(r.get("harness_error"))
     elif part == 4:
         r = run_worker({"job": "subst", "cases": [payload["case"]]})["cases"][0]
+        if r.get("harness_error"):
+            print("  harness error:", r["harness_error"])
         print("  with substitution handler:", json.dumps(r.get("got"))[:400])
         print("  same graph over Value    :", json.dumps(r.get("want"))[:400])
         print("  plain (real dataset)     :", json.dumps(r.get("plain"))[:400])
